@@ -28,7 +28,7 @@ import time
 
 from vp.common.harness import Fail
 from vp.gen import c16_ops, c16_world
-from vp.gen.c16_world import K_CLOBBER, K_STALE, K_TOPLEVEL, run_history
+from vp.gen.c16_world import K_CLOBBER, K_DEMOTED, K_MERGE, K_STALE, K_TOPLEVEL, run_history
 
 ID = "C16"
 LEVEL = "exploration"
@@ -138,12 +138,31 @@ def _is_clobbered(case, fail: Fail) -> bool:
     return bool(fail.clause == "alias-registered" and d.get("occupant_detached"))
 
 
-KNOWN = {K_STALE: _is_stale_key, K_TOPLEVEL: _is_toplevel_parent, K_CLOBBER: _is_clobbered}
+def _is_merge_before_attach(case, fail: Fail) -> bool:
+    """alias-registered fails right after set_member replaced a module by a module (regular/stubs merge): the entry
+    under the alias's path is a live in-tree alias whose own path is different.  The stubs' resolved aliases are moved
+    into the new module before it is attached (its path is still its bare name) and register under that wrong path."""
+    d = fail.detail or {}
+    return bool(
+        fail.clause == "alias-registered" and fail.kind.startswith("set_member:module")
+        and d.get("occupant_path") and d["occupant_path"] != d.get("alias")
+    )
+
+
+def _is_demoted_module(case, fail: Fail) -> bool:
+    """collection fails and the stale reference is held by a *module that has been a top-level member of a collection*
+    and is now nested below another module: inserting it below a parent sets `parent` but leaves its own
+    `_modules_collection`, which takes precedence over the parents' (only visible with two collections)."""
+    d = fail.detail or {}
+    return bool(fail.clause == "collection" and d.get("holder_kind") == "module" and d.get("holder_was_top") and not d.get("holder_is_top"))
+
+
+KNOWN = {K_MERGE: _is_merge_before_attach, K_DEMOTED: _is_demoted_module, K_STALE: _is_stale_key, K_TOPLEVEL: _is_toplevel_parent, K_CLOBBER: _is_clobbered}
 
 
 # ----------------------------------------------------------------------------- search
 def _steer(ctx) -> list:
-    return sorted(s for s in (K_STALE, K_TOPLEVEL, K_CLOBBER) if s in ctx.known)
+    return sorted(s for s in (K_STALE, K_TOPLEVEL, K_CLOBBER, K_DEMOTED, K_MERGE) if s in ctx.known)
 
 
 def strategy(ctx):
